@@ -248,3 +248,13 @@ Theorem dictionaries_differ_on_every_D_style : forall k st x, In k ["f"; "e"; "g
     fd (VStr (render st x)) = Ok VNone /\ ff (VStr (render st x)) = Ok (VFloat (real_value x)).
 Proof. exact d_style_differs. Qed.
 Print Assumptions dictionaries_differ_on_every_D_style.
+
+(** the caller's blank value influences the result on blank fields ONLY: on every non-blank text the
+    readers called with any two blank values agree, and so do fortran_read_float/int (blank value None) *)
+Theorem blank_value_matters_only_on_blank_fields : forall s bv bv', strip s <> [] ->
+  gen_fortran_float (VStr s) bv = gen_fortran_float (VStr s) bv' /\
+  gen_fortran_int (VStr s) bv = gen_fortran_int (VStr s) bv' /\
+  gen_fortran_read_float (VStr s) = gen_fortran_float (VStr s) bv /\
+  gen_fortran_read_int (VStr s) = gen_fortran_int (VStr s) bv.
+Proof. exact bv_only_blank. Qed.
+Print Assumptions blank_value_matters_only_on_blank_fields.
